@@ -15,6 +15,9 @@ CLAUSE = CLAUSE + (" The 'whole page consumed' resume row that highlight() prese
                    "search_page_fwd skips an already reported page (so a match that ends in the last searched cell does not make "
                    "the search return the same page forever); in _ure_sym_neq the element count that is compared is the one that "
                    "scales the memcmp of the ranges (two bracket classes are the same symbol only if all their ranges agree).")
+CLAUSE = CLAUSE + (" cache_network_add_page updates the subpage range the page walk relies on so that the upper bound is "
+                   "raised independently of whether the lower bound was (re)initialised; in _ure_add_range each range endpoint "
+                   "is case-folded from itself.")
 NOT_DECIDED = ("that exactly the matching pages are found, in order, each once (values); the regex engine's matching semantics; "
                "haystack construction.")
 
@@ -83,6 +86,8 @@ def run(ctx, run):
     _walk(ctx, run, walk)
     _page_done_marker(ctx, run, fwd)
     _symbol_identity(ctx, run)
+    _subno_bounds_independent(ctx, run)
+    _casefold_endpoints(ctx, run)
 
 
 def _metachars(ctx, run):
@@ -302,3 +307,49 @@ def _symbol_identity(ctx, run):
                               % (sorted(length_fields), sorted(cmp_fields) or "other fields"), ex.loc(f, i),
                               witness={"length": sorted(length_fields), "compared": sorted(cmp_fields)})
     run.floor("memcmp of class ranges in _ure_sym_neq", n, 1)
+
+
+def _subno_bounds_independent(ctx, run):
+    f = ctx.prog.need("cache_network_add_page", CACHE)
+    run.touch(f)
+    n = 0
+    for bid, i in flow.all_events(f):
+        e = f.exprs[i]
+        if e["k"] == "asg" and e["op"] == "=" and ex.pretty(f, e["c"][0]).endswith("subno_max"):
+            n += 1
+            ats = atoms.atoms_at(f, i)
+            dep = [a for a in ats if any(x.endswith(".subno_min") for x in (a.L.fields | (a.R.fields if a.R is not None else set())))]
+            key = "RF-DOM:cache_network_add_page:subno_max-independent"
+            if dep:
+                run.violation("RF-DOM", key, "the update of subno_max is reached only when the subno_min update was *not* taken (%s): "
+                              "a page whose first (or lowest) subpage is non-zero keeps subno_max == 0 < subno_min, and the page "
+                              "walk of the search skips all its subpages" % "; ".join(repr(a) for a in dep), ex.loc(f, i),
+                              witness={"dominating": [repr(a) for a in ats]})
+            else:
+                run.holds("RF-DOM", key, "subno_max is raised independently of the subno_min update", ex.loc(f, i))
+    run.floor("subno_max updates in cache_network_add_page", n, 1)
+
+
+def _casefold_endpoints(ctx, run):
+    f = ctx.prog.need("_ure_add_range", "src/ure.c")
+    run.touch(f)
+    n = 0
+    for bid, i in flow.all_events(f):
+        e = f.exprs[i]
+        if e["k"] != "asg" or e["op"] != "=":
+            continue
+        l = f.exprs[ex.skip(f, e["c"][0])]
+        r = f.exprs[ex.skip(f, e["c"][1])]
+        while r["k"] == "cast":
+            r = f.exprs[ex.skip(f, r["c"][0])]
+        if l["k"] == "mem" and l["member"] in ("min_code", "max_code") and r["k"] == "call" and "lower" in (r.get("callee") or ""):
+            n += 1
+            src = {x.split(".")[-1] for x in atoms.Operand(f, e["c"][1]).fields}
+            key = "RF-DEP:_ure_add_range:casefold-%s" % l["member"]
+            if src == {l["member"]}:
+                run.holds("RF-DEP", key, "%s is folded from itself" % l["member"], ex.loc(f, i))
+            else:
+                run.violation("RF-DEP", key, "r->%s is case-folded from %s: under case folding a range [a-e] collapses to its first "
+                              "character and pages that match only through the rest of the range are not found"
+                              % (l["member"], sorted(src)), ex.loc(f, i), witness={"source": sorted(src)})
+    run.floor("case-folded range endpoints", n, 2)
